@@ -143,6 +143,12 @@ def _order_insensitive_stmts(body: List[ast.stmt], cls_methods: Dict[str, ast.Fu
                         continue
                     if _order_insensitive_stmts(cls_methods[c.func.attr].body, cls_methods, seen | {c.func.attr}):
                         continue
+            elif isinstance(c.func, ast.Name) and c.func.id in cls_methods:
+                # a (nested) function that itself only accumulates into sets - typically the recursion of a closure
+                if c.func.id in seen:
+                    continue
+                if _order_insensitive_stmts(cls_methods[c.func.id].body, cls_methods, seen | {c.func.id}):
+                    continue
             return False
         if isinstance(st, ast.If):
             if _order_insensitive_stmts(st.body, cls_methods, seen) and _order_insensitive_stmts(st.orelse, cls_methods, seen):
@@ -268,10 +274,26 @@ def p5(ctx: Ctx):
                     methods = {}
                     if ci is not None:
                         methods = {x.name: x for x in ci.body if isinstance(x, ast.FunctionDef)}
+                    # enclosing / sibling nested functions are callable by bare name
+                    outer_fn = fn
+                    while outer_fn is not None:
+                        for x in ast.walk(outer_fn):
+                            if isinstance(x, ast.FunctionDef) and x is not outer_fn:
+                                methods.setdefault(x.name, x)
+                        methods.setdefault(outer_fn.name, outer_fn)
+                        outer_fn = func_of(outer_fn)
                     if _order_insensitive_stmts(site.body, methods, {fn.name} if fn else set()):
                         reason = "loop body only accumulates into sets"
                 if reason is None and enclosing(site, (ast.Raise,)) is not None:
                     reason = "flows only into an exception message (a refusal, not output)"
+                if reason is None and fn is not None:
+                    # ... or into a local that is used only to build an exception message
+                    asg = enclosing(site, (ast.Assign,))
+                    if asg is not None and len(asg.targets) == 1 and isinstance(asg.targets[0], ast.Name):
+                        nm_ = asg.targets[0].id
+                        uses = [u for u in ast.walk(fn) if isinstance(u, ast.Name) and u.id == nm_ and isinstance(u.ctx, ast.Load)]
+                        if uses and all(enclosing(u, (ast.Raise,)) is not None for u in uses):
+                            reason = "flows only into an exception message (through a local)"
                 ok = reason is not None
                 ctx.ob(
                     key,
